@@ -78,6 +78,10 @@ fn main() {
         "screen" => {
             elem::screen_hist(&args[2], args[3].parse().unwrap(), args[4].parse().unwrap(), args[5].parse().unwrap(), 7);
         }
+        "sweep" => {
+            let op: &'static str = Box::leak(args[2].clone().into_boxed_str());
+            elem::sweep_hist(op, args[3].parse().unwrap(), 1);
+        }
         "exec" => {
             guard::watchdog(format!("{}.TIMEOUT", args[3]), 10);
             let (n, bad, msgs) = interp::exec_file(&args[2], &args[3]);
